@@ -1045,6 +1045,99 @@ def c17(p, tier, work, t0, replay):
 PROPS["C17"] = c17
 
 
+# ---------------------------------------------------------------------------------------------
+# C18 process level: the command-line entry points with a configuration file that is (not) root-controlled
+
+C18_RULE = ("exhaustive grid: owner {root, 1000} x group {root, 1000} x all 512 permission modes x {direct path, symlink owned by a non-root user} through "
+            "util.SafeCmdExecution (4096 files), a reduced mode grid through CmdSensor and the three CmdFan commands, ownership/mode flips between consecutive "
+            "executions in both directions, overlapping calls, executables being replaced, configured exec paths, and the configuration-file rule over uid x gid x modes x "
+            "{no cmd entry, cmd sensor, cmd fan}; each file is a script appending to a marker file, so execution is observed from outside; every case is distinct and "
+            "non-trivial (it decides permit/refuse). Process level: the real binary's sub-commands `sensor --id`, `fan --id speed|rpm`, `config validate` and the daemon "
+            "itself with a configuration file that declares a command sensor and a command fan and is owned by root 0644 (accepted) or by uid 1000 / mode 0666 / "
+            "gid 1000 mode 0664 (refused: non-zero exit, no command executed)")
+
+
+def c18_cli_scenario(binary, work, idx, rng, merged):
+    sd = os.path.join(work, "c18cli-%d" % idx)
+    os.makedirs(sd, exist_ok=True)
+    tree = l2.Tree(os.path.join(sd, "hwmon"))
+    tree.chip("chipa", fans=(1,), temps=(1,), orig_mode=2, orig_pwm=100, rpm=1200)
+    marker = os.path.join(sd, "marker")
+    l2.write(os.path.join(sd, "tool.sh"), "#!/bin/sh\necho ran >> %s\necho 42\n" % marker, 0o755)
+    l2.write(os.path.join(sd, "pwmstate"), "100\n")
+    cfg = """dbPath: {sd}/fan2go.db
+sensors:
+  - id: s
+    cmd:
+      exec: {sd}/tool.sh
+curves:
+  - id: c
+    linear:
+      sensor: s
+      min: 40
+      max: 80
+fans:
+  - id: f
+    curve: c
+    cmd:
+      setPwm:
+        exec: {sd}/tool.sh
+        args: ["%pwm%"]
+      getPwm:
+        exec: {sd}/tool.sh
+      getRpm:
+        exec: {sd}/tool.sh
+""".format(sd=sd)
+    cfgp = os.path.join(sd, "fan2go.yaml")
+    l2.write(cfgp, cfg)
+    owner = [("root:root 0644", 0, 0, 0o644, True), ("uid 1000 0644", 1000, 0, 0o644, False), ("root:root 0666", 0, 0, 0o666, False),
+             ("root:gid 1000 0664", 0, 1000, 0o664, False), ("root:gid 1000 0644", 0, 1000, 0o644, True)][idx % 5]
+    name, uid, gid, mode, trusted = owner
+    os.chown(cfgp, uid, gid)
+    os.chmod(cfgp, mode)
+    for args in (["sensor", "--id", "s"], ["fan", "--id", "f", "speed"], ["fan", "--id", "f", "rpm"], ["config", "validate"]):
+        try:
+            os.remove(marker)
+        except OSError:
+            pass
+        rc, out = run_cli(binary, sd, cfgp, tree.root, args, timeout=60)
+        merged.evaluations += 1
+        ran = os.path.exists(marker)
+        cls = "%s:%s" % (" ".join(a for a in args if not a.startswith("-") and a not in ("s", "f")), name.replace(" ", "-"))
+        case = {"configuration_file": name, "command": args, "exit": rc, "tool_ran": ran}
+        if rc is None or l2.has_panic(out or "", allow_startup_fatal=True):
+            if rc is None:
+                merged.inconclusive.append("C18 CLI scenario %d: `%s` did not return" % (idx, " ".join(args)))
+            else:
+                merged.add_violation("cli:panic:" + cls, (out or "")[-1200:], case)
+            return
+        if not trusted and ran:
+            merged.add_violation("cli:command-of-an-untrusted-configuration-file-executed:" + cls, "%s; output: %s" % (json.dumps(case), (out or "")[-600:].replace("\n", " | ")), case)
+            return
+        if not trusted and rc == 0 and args[0] != "config":
+            merged.add_violation("cli:untrusted-configuration-file-accepted:" + cls, "%s; output: %s" % (json.dumps(case), (out or "")[-600:].replace("\n", " | ")), case)
+            return
+        if trusted and args[0] == "sensor" and not ran:
+            merged.add_violation("cli:permitted-command-not-run:" + cls, "%s; output: %s" % (json.dumps(case), (out or "")[-600:].replace("\n", " | ")), case)
+            return
+        merged.nontrivial.add("cli|" + cls)
+    if not any(isinstance(x, dict) and x.get("kind") == "process-level" for x in merged.samples):
+        merged.samples.append({"kind": "process-level", "configuration_file": name, "trusted": trusted})
+
+
+def c18(p, tier, work, t0, replay):
+    src, vh = build_vh(work)
+    q = tier == "quick"
+    merged = vcheck.run_vh_batches(vh, p, tier, 8, work, 600 if q else 3000)
+    binary = vbuild.build(work, src, ".", os.path.join(work, "fan2go"))
+    run_l2(lambda i, r, m: c18_cli_scenario(binary, work, i, r, m), 5 if q else 25, merged, "process-level", 97, workers=5)
+    return vcheck.finish(p, tier, "exploration", merged, C18_RULE,
+                         ["runs as root (needed to construct ownership cases)", "check-to-exec TOCTOU window is not claimed by the statement"], t0, exhaustive=True)
+
+
+PROPS["C18"] = c18
+
+
 def c15_l2_scenario(binary, work, idx, rng, merged):
     sd = os.path.join(work, "c15-%d" % idx)
     os.makedirs(sd, exist_ok=True)
